@@ -2,7 +2,7 @@
 from __future__ import annotations
 import ast
 from ..ncalg import NCEval, parse_expr, _single_atom
-from ..api import A
+from ..api import A, spec
 from fractions import Fraction
 from ..terms import tkey
 from ..spaces import flat, show, same
@@ -206,6 +206,11 @@ def _mirror_key(k):
 
 
 def rows(rep, prog):
+    _rows(rep, prog)
+    current_formulas(rep, prog)
+
+
+def _rows(rep, prog):
     """the feedthrough accessors are the images of the state accessors under C -> D, A -> B (normal forms of the methods; private helpers
     inlined), except that a current source feeds through with a one at its own input column"""
     from ..terms import paths_of, has_opaque, Opq, Poly
@@ -255,6 +260,33 @@ def rows(rep, prog):
         else:
             ok = _mirror_key(tkey(lc)) == tkey(ld)
             rep.ob('R10.rows', name, True if ok else (None if has_opaque(lc) or has_opaque(ld) else False), f'{lc!r:.120} ~ {ld!r:.120}', site)
+
+
+def current_formulas(rep, prog):
+    """the current of a passive branch is its own voltage row divided by its own impedance, the current of a capacitor is C times its own row
+    of A (B): the accessor evaluated on the path of that case (the three membership tests assumed accordingly), helpers inlined"""
+    from ..terms import Opq, compare_terms
+    from .solutions import new_ev, method_term, class_of
+    try:
+        mm, cls = class_of(prog, SS, 'NodalStateSpaceModel')
+    except Exception:
+        return
+    SPEC = {'passive': "(self.{p}_row_for_potential(self.network[branch_id].node1) - self.{p}_row_for_potential(self.network[branch_id].node2))/self.network[branch_id].element.Z",
+            'capacitor': "self.c_values[branch_id]*self.{M}[list(self.c_values.keys()).index(branch_id)][:]"}
+    for meth, p_, M_ in (('c_row_current', 'c', 'A'), ('d_row_current', 'd', 'B')):
+        for case in ('passive', 'capacitor'):
+            ev = new_ev(prog); ev.opaque_fns |= {('Network.elements', 'is_ideal_voltage_source'), ('Network.NodalAnalysis.node_analysis', 'admittance_between'), ('Network.NodalAnalysis.node_analysis', 'admittance_connected_to')}
+            ev.inline_self_methods = {'c_row_for_potential', 'd_row_for_potential', 'c_row_voltage', 'd_row_voltage'}
+            for attr in ('c_values', 'current_source_index_mapping', 'voltage_source_index_mapping'):
+                ev._assume_branch(Opq('in', A('branch_id'), ev_attr(prog, mm, attr)), attr == 'c_values' and case == 'capacitor')
+            try:
+                t, site = method_term(prog, ev, mm, cls, meth, [A('branch_id')])
+            except AnalysisError:
+                rep.ob('R10.rows', f'{meth}:{case}:formula', None, 'accessor missing', prog.site(mm, cls)); continue
+            sp = spec(ev, SPEC[case].format(p=p_, M=M_), {'self': A('self'), 'branch_id': A('branch_id')}, mm)
+            c = compare_terms(t, sp, total=True)
+            rep.ob('R10.rows', f'{meth}:{case}:formula', c, (f'current of a {case} branch = {t!r:.200}' + ('' if c is True else
+                   ' -- not its own voltage row over its own impedance' if case == 'passive' else ' -- not C times its own state row')), site, lhs=t, rhs=sp)
 
 
 def ev_attr(prog, mm, attr):
